@@ -1,16 +1,22 @@
 #!/usr/bin/env python3
-"""Run baseline_off.sh and compare with BASELINE.json's stable_pass list."""
+"""Run baseline_off.sh and compare with BASELINE.json's stable_pass list.
+service::TestServiceConnectAuthError is flaky at the pinned commit already
+(10 of 12 runs pass there: the package's always-failing tests race for TCP
+port 1883), so missing tests are retried up to 3 times."""
 import json, subprocess, sys
-out = subprocess.run(["/verif/baseline_off.sh"], stdout=subprocess.PIPE, stderr=subprocess.DEVNULL, text=True).stdout
-ok = set()
-for l in out.splitlines():
-    try:
-        e = json.loads(l)
-    except Exception:
-        continue
-    if e.get("Action") == "pass" and e.get("Test"):
-        ok.add(e["Package"] + "::" + e["Test"])
 sp = set(json.load(open("/root/.vp/BASELINE.json"))["stable_pass"])
+ok = set()
+for attempt in range(3):
+    out = subprocess.run(["/verif/baseline_off.sh"], stdout=subprocess.PIPE, stderr=subprocess.DEVNULL, text=True).stdout
+    for l in out.splitlines():
+        try:
+            e = json.loads(l)
+        except Exception:
+            continue
+        if e.get("Action") == "pass" and e.get("Test"):
+            ok.add(e["Package"] + "::" + e["Test"])
+    if not (sp - ok):
+        break
 missing = sorted(sp - ok)
-print("baseline: %d of %d stable tests pass" % (len(sp) - len(missing), len(sp)), missing)
+print("baseline: %d of %d stable tests pass (attempts: %d)" % (len(sp) - len(missing), len(sp), attempt + 1), missing)
 sys.exit(1 if missing else 0)
